@@ -135,8 +135,8 @@ def _run_case(ctx, xc, flags, mode, nprng, lines, pending):
     tag = '%dD:%s%s%s' % (d, xc.cls, ':NOSYM' if flags.get('NOSYM') else '', ':noreduce' if flags.get('noreduce') else '')
     try:
         crys = X.build(xc, **flags)
-    except ArithmeticError as e:
-        ctx.count('ctor:ArithmeticError(reduce; C19)')
+    except (ArithmeticError, RecursionError) as e:
+        ctx.count('ctor:%s(reduce/minlattice; C19)' % type(e).__name__)
         return None
     except Exception as e:
         if flags.get('NOSYM') and d == 2:
@@ -159,8 +159,8 @@ def _run_case(ctx, xc, flags, mode, nprng, lines, pending):
             xs = X.XC(gin, xo.basis, xo.spins, L=(np.eye(d) + eps) @ crys.lattice, name=xc.name + '+strain', cls=xc.cls)
             try:
                 crys2 = crys.strain(eps)
-            except ArithmeticError:
-                ctx.count('ctor:ArithmeticError(reduce; C19)'); return None
+            except (ArithmeticError, RecursionError) as ex:
+                ctx.count('ctor:%s(reduce/minlattice; C19)' % type(ex).__name__); return None
             except Exception as ex:
                 ctx.violation('strain-raises:%s' % type(ex).__name__, 'Crystal.strain raises %r' % (ex,),
                               _replay(xc, flags, dict(strain=[str(x) for x in e])))
@@ -343,8 +343,8 @@ def _noise_stream(ctx, n, nprng):
         try:
             c0 = X.build(xc)
             c1 = X.build(xc, noise=2e-10, nprng=nprng)
-        except ArithmeticError:
-            ctx.count('ctor:ArithmeticError(reduce; C19)'); continue
+        except (ArithmeticError, RecursionError) as e:
+            ctx.count('ctor:%s(reduce/minlattice; C19)' % type(e).__name__); continue
         ctx.count('noise-stream')
         ctx.case(('noise', xc.key(), k), nontrivial=len(c0.G) > 1)
         bad = X.oracle_ops(c1, tol=1e-6) + X.oracle_group(c1, tol=1e-6)
@@ -382,7 +382,7 @@ def run(ctx):
     nat = X.native_driver(DRV, MODELS) is not None
     t_run = time.time()   # (after the native build)
     budget = 115.0 if ctx.quick else 1250.0      # for this phase (the Lean build may have waited for the lock)
-    n_random = (45 if ctx.quick else 700) if nat else (6 if ctx.quick else 60)
+    n_random = (45 if ctx.quick else 2500) if nat else (6 if ctx.quick else 60)
     if not nat: ctx.note('native driver could not be built: interpreter fallback with a reduced case list')
     cases, nprng = _make_cases(ctx, n_random)
     lines, pending = [], []
@@ -419,7 +419,7 @@ def search(ctx, reasons):
         flags = dict(NOSYM=(ctx.rng.random() < 0.1))
         try:
             crys = X.build(xc, **flags)
-        except ArithmeticError:
+        except (ArithmeticError, RecursionError):
             continue
         except Exception as e:
             ctx.violation('ctor-raises:%s' % type(e).__name__, 'Crystal construction raises %r' % (e,), _replay(xc, flags))
